@@ -127,7 +127,7 @@ def operand_text(kind, shape, val, rng, c20=False):
     return mem_desc(rng, ty, forms) + ':%x' % (val & ((1 << (8 * TYPE_SIZE[ty])) - 1))
 
 
-def gen_case(info, rng, cid, vals=None, shapes=None, dst=None, br=None, c20=False, pre=None, post=None, prime=None):
+def gen_case(info, rng, cid, vals=None, shapes=None, dst=None, br=None, c20=False, pre=None, post=None, prime=None, press=None):
     """returns the case line for the harness"""
     kinds = (info.res if info.res != '-' else '-') + info.args + ('-' if len(info.args) == 1 else '')
     nsrc = len(info.args)
@@ -157,7 +157,9 @@ def gen_case(info, rng, cid, vals=None, shapes=None, dst=None, br=None, c20=Fals
             cands.append('x')
         if nsrc == 2 and shapes[1] == 'r' and info.args[1] == info.res:
             cands.append('y')
-        if x < 0.6:
+        if shapes[0] == 'm' and info.res == 'i' and info.args[0] == 'i' and not (pre or post) and rng.random() < 0.4:
+            d = 'X'                   # in place: op m, m, y (the "m 0 ..." instruction patterns)
+        elif x < 0.6:
             d = 'r'
         elif x < 0.8:
             d = rng.choice(cands)
@@ -176,13 +178,20 @@ def gen_case(info, rng, cid, vals=None, shapes=None, dst=None, br=None, c20=Fals
         line += ' post=' + post
     if prime is not None:
         line += ' prime=%d' % prime
+    if (press is None and d in ('r', 'x') and shapes[0] == 'r' and info.res == 'i' and info.args[0] == 'i' and not (pre or post)
+            and rng.random() < 0.05):
+        press = rng.choice([14, 20, 28])
+    if press:
+        # register pressure: the instruction is also applied to x+1 .. x+press, all live at once (spilled operands ->
+        # the memory forms of the instruction patterns); pmask = the defined result bits
+        line += ' press=%d pmask=%x' % (press, info.mask)
     return line
 
 
 # ---------------------------------------------------------------- expectation
 def parse_operand(tok):
     """-> dict(kind, val, ty)"""
-    if tok == '-' or tok in ('r', 'x', 'y'):
+    if tok == '-' or tok in ('r', 'x', 'y', 'X'):
         return dict(kind=tok)
     if tok[0] in 'riu':
         return dict(kind=tok[0], val=int(tok[2:], 16))
